@@ -17,7 +17,8 @@ from sx import Sym, Str
 
 PROP = "C13"
 PROP_FILE = "C13_PE"
-THEOREMS = ["c13_peval_sound", "c13_policy_status_sound", "c13_decision", "c13_determining", "c13_definitely"]
+THEOREMS = ["c13_peval_sound", "c13_policy_status_sound", "c13_decision", "c13_determining", "c13_definitely",
+            "c13_reauthorize_partial", "c13_reauthorize_no_residual"]
 
 MANIFEST = {
     "text": "Executable Gallina partial evaluator (PE.v) transcribed from evaluator.rs residual arms, PartialResponse views and reauthorize; soundness w.r.t. every well-typed substitution proved in Coq; tied to /repo by differential execution (buckets/decision/must/may exact, residuals compared semantically under >= 10 substitutions per case) plus an implementation-level oracle (reauthorize == from scratch, definite decision stable, must ⊆ determining ⊆ may).",
